@@ -226,6 +226,8 @@ type RunOpts struct {
 	CollectFns bool
 	Preempt    bool
 	SymMapOrder bool
+	FailAtEnd   bool
+	ReplayChoices bool
 }
 
 // Worker owns a solver process and a term builder.
@@ -283,7 +285,7 @@ func (w *Worker) Run(o RunOpts) (out PathOutcome) {
 		prefix: o.Prefix, pcSet: map[*smt.Term]bool{}, covers: map[string]bool{}, known: map[string]bool{},
 		budget: o.Budget, concrete: o.Concrete, tape: o.Tape, useRng: o.UseRng, rng: o.Seed,
 		wantSample: o.WantSample, crossCheck: o.CrossCheck, openKnown: e.OpenKnown,
-		symMapOrder: o.SymMapOrder,
+		symMapOrder: o.SymMapOrder, replayChoices: o.ReplayChoices,
 	}
 	if m.budget == 0 {
 		m.budget = 50_000_000
@@ -373,6 +375,9 @@ func (w *Worker) Run(o RunOpts) (out PathOutcome) {
 	m.inInit = false
 	m.steps = 0
 	call(i, nil, fn.Pos(), fn, nil)
+	if o.FailAtEnd {
+		m.violation(nil, "vacuity-twin", "end of harness reached", nil)
+	}
 	if o.WantSample && !m.concrete {
 		res, model := m.solver.CheckWithModel(nil, m.inputVars())
 		if res == smt.Sat {
